@@ -33,6 +33,10 @@ def entry_jobs(maxlen: int, scopes=None) -> list:
     for scope in scopes or AL.SCOPES:
         for cls in DR.CLASSES:
             jobs.append(("B", scope, cls, 0, maxlen, 0, AL.n_sequences(6, maxlen)))
+            if cls != "triple":
+                # sink input with a graph name re-appearing after another one (g1, g2, g1):
+                # length-3 sequences through the container-based entry points
+                jobs.append(("B3", scope, cls, 0, 3, AL.n_sequences(6, 2), AL.n_sequences(6, 3)))
     return jobs
 
 
@@ -44,6 +48,8 @@ def expected_cases(jobs: list) -> int:
             continue
         if kind == "A":
             tot += (hi - lo) * len(FRAME_SIZES) * 2
+        elif kind == "B3":
+            tot += (hi - lo) * len(SINK_CONFIGS)
         else:
             tot += (hi - lo) * len(entry_configs(cls))
     return tot
@@ -62,6 +68,9 @@ def entry_configs(cls: str) -> list:
         out.append((3, 250, "flat_to_file_default"))  # options guessed by the entry point
         out.append((3, 250, "grouped_to_file_default"))
     return out
+
+
+SINK_CONFIGS = [(1, 250, "stream_frames_sink"), (3, 2, "stream_frames_sink")]
 
 
 def is_nontrivial(seq, preset) -> bool:
@@ -174,6 +183,8 @@ def run_job(job, judge, include_out_of_domain: bool = False) -> dict:
         seq = [alpha[i] for i in sym]
         if kind == "A":
             configs = [(pi, fs, dl, "stream_frames_gen") for fs in FRAME_SIZES for dl in (True, False)]
+        elif kind == "B3":
+            configs = [(p, fs, True, w) for p, fs, w in SINK_CONFIGS]
         else:
             configs = [(p, fs, True, w) for p, fs, w in entry_configs(cls)]
         for cpi, fs, dl, writer in configs:
